@@ -47,6 +47,30 @@ class World:
         self.sched = None        # mc.vsched.Scheduler when explorer C is active
         self.in_idle = False
         self.timeouts = 0        # blocking calls that ended by (virtual) time-out
+        self.timers = []         # (due, serial, fn): things the environment does at a later virtual time (a slow peer's answer)
+        self._tserial = 0
+
+    def at(self, delay, fn):
+        """The environment does ``fn()`` ``delay`` seconds from now (sequential mode): it happens while the library is
+        blocked in a wait / get / sleep that lasts at least that long, at exactly that virtual time."""
+        self._tserial += 1
+        self.timers.append((self.now + delay, self._tserial, fn))
+        self.timers.sort(key=lambda t: t[:2])
+
+    def wait_until(self, deadline, satisfied):
+        """Sequential blocking: run the idle hooks, then fire due timers in time order until ``satisfied()`` or the
+        deadline passes. Returns True if satisfied (time = the moment it became true), False at the deadline."""
+        self.run_idle()
+        if satisfied():
+            return True
+        while self.timers and (deadline is None or self.timers[0][0] <= deadline):
+            due, _, fn = self.timers.pop(0)
+            self.now = max(self.now, due)
+            fn()
+            self.run_idle()
+            if satisfied():
+                return True
+        return False
 
     def run_idle(self):
         """Let the environment run (deferred deliveries, drive transitions...)."""
@@ -96,8 +120,9 @@ class _VTime:
         if s is not None:
             s.block(("sleep", id(object())), d)
             return
-        W.run_idle()
-        W.now += max(d, 0.0)
+        end = W.now + max(d, 0.0)
+        W.wait_until(end, lambda: False)
+        W.now = max(W.now, end)
 
     # passthrough used by logging etc. never needed; keep struct_time helpers
     strftime = staticmethod(_real_time.strftime)
@@ -147,12 +172,12 @@ class VQueue:
             return self.items.pop(0)
         if not block:
             raise _real_queue.Empty
-        W.run_idle()
-        if self.items:
+        end = None if timeout is None else W.now + max(timeout, 0.0)
+        if W.wait_until(end, lambda: bool(self.items)):
             return self.items.pop(0)
         if timeout is None:
             raise HarnessError("sequential get() without timeout would block forever")
-        W.now += max(timeout, 0.0)
+        W.now = max(W.now, end)
         W.timeouts += 1
         raise _real_queue.Empty
 
@@ -225,12 +250,12 @@ class VCondition:
         s = _sched()
         if s is None:
             gen = self.gen
-            W.run_idle()
-            if self.gen != gen:
+            end = None if timeout is None else W.now + max(timeout, 0.0)
+            if W.wait_until(end, lambda: self.gen != gen):
                 return True
             if timeout is None:
                 raise HarnessError("sequential wait() without timeout would block forever")
-            W.now += max(timeout, 0.0)
+            W.now = max(W.now, end)
             W.timeouts += 1
             return False
         me = s.cur
@@ -399,6 +424,7 @@ class Port:
 
 class SimBus:
     stamp = None      # optional mapping from virtual time to the timestamp receivers see (the interface's own clock)
+    reuse_rx = False  # hand every received frame over in ONE re-used bytearray (overwritten after the listener returns)
 
     def __init__(self, mode="inline", modifiable_tasks=True, loopback=False, shutdown_stops_tasks=True):
         import can
@@ -505,7 +531,13 @@ class SimBus:
                 if self.stamp is not None and c.timestamp is not None:
                     # the interface's own clock (time since it was opened, a monotonic counter, none at all ...)
                     c.timestamp = self.stamp(c.timestamp)
+                if self.reuse_rx:
+                    rx = self.__dict__.setdefault("_rx", bytearray(8))
+                    rx[:] = bytes(c.data)
+                    c.data = rx
                 port.network.listeners[0].on_message_received(c)
+                if self.reuse_rx:
+                    rx[:] = b"\xEE" * len(rx)
             if to_devices:
                 for name, fn in self.devices:
                     if src is not None and src.name == name:
